@@ -15,6 +15,7 @@ from players.scripted import ScriptedPlayer, Style
 from players.bundled import BundledPlayer
 
 ADDR = ('sim-host', 2000)
+PRE_ADDR = ('sim-host', 1999)      # the prelude session's table manager listens here
 
 
 def make_policy(sched, rng):
@@ -73,6 +74,7 @@ class SessionRun:
         self.digest = None
         self.board_settings = None
         self.workdir = None
+        self.prelude_exc = None
         self.server_role = 'server'
 
 
@@ -82,17 +84,19 @@ def default_sched():
 
 
 def make_player(scn, seat, spec, role, overrides=None, vanish=None, team=None, version=18,
-                on_verdict=None, pre_connect=None, post_connect=None, linger_gate=None):
+                on_verdict=None, pre_connect=None, post_connect=None, linger_gate=None,
+                addr=None):
+    addr = addr or ADDR
     team = team if team is not None else scn['teams'][rb.side(seat)]
     kind = spec['kind']
     if kind == 'scripted':
         return ScriptedPlayer(seat, team, scn['script'], Style.from_json(spec['style']),
-                              spec['seed'], ADDR, version=version, overrides=overrides,
+                              spec['seed'], addr, version=version, overrides=overrides,
                               name=role, on_verdict=on_verdict, vanish=vanish,
                               pre_connect=pre_connect, post_connect=post_connect,
                               linger_gate=linger_gate)
     pk = {'bundled': 'script'}.get(kind, kind)
-    return BundledPlayer(seat, team, scn['script'], pk, ADDR, name=role, on_verdict=on_verdict,
+    return BundledPlayer(seat, team, scn['script'], pk, addr, name=role, on_verdict=on_verdict,
                          pre_connect=pre_connect, post_connect=post_connect, version=version)
 
 
@@ -147,6 +151,11 @@ def run_session(scn, sched, keep_sim=True, max_decisions=None, extra_setup=None)
         # connection threads are pt:<accept order>; anything else the tree under test starts
         # (a writer thread, a pool worker, a timer) is aux:<n>
         if isinstance(th, server_mod.PlayerThread):
+            if scn.get('prelude') and getattr(run, 'server', None) is None:
+                # a connection thread of the prelude session: not judged
+                k = naux[0]
+                naux[0] += 1
+                return f'prept:{k}'
             k = npt[0]
             npt[0] += 1
             return f'pt:{k}'
@@ -169,7 +178,25 @@ def run_session(scn, sched, keep_sim=True, max_decisions=None, extra_setup=None)
     elif 'open' in vars(server_mod):
         del server_mod.open
 
+    prelude = scn.get('prelude')
+
     def server_main():
+        if prelude:
+            # a tournament driver: one table after the other in the same interpreter; whatever
+            # becomes of the first table, the second is started
+            try:
+                with server_mod.Server(ip_address=PRE_ADDR[0], port=PRE_ADDR[1],
+                                       output_file_path=pathlib.Path(workdir) / 'prelude.json',
+                                       board_settings=build_board_settings(
+                                           mods, prelude['boards'])) as pre_server:
+                    pre_server.run()
+            except BaseException as e:  # noqa
+                if isinstance(e, (core.SimKill, core.SimSpin)):
+                    raise
+                run.prelude_exc = f'{type(e).__name__}: {e}'
+            sim.count_fault('prelude.' + ((prelude.get('abort') or {}).get('kind') or 'completed'))
+            from sim import parserec as _pr
+            _pr.reset()
         with server_mod.Server(ip_address=ADDR[0], port=ADDR[1], output_file_path=out_path,
                                board_settings=settings) as server:
             run.server = server
@@ -180,6 +207,19 @@ def run_session(scn, sched, keep_sim=True, max_decisions=None, extra_setup=None)
     sim.spawn(server_main, 'server', proc='server')
     sim.on_process_exit.append(netw.process_exit)
 
+    if prelude:
+        pab = prelude.get('abort') or {}
+        if pab.get('kind') == 'leave':
+            sim.interrupt_on_hang = 'server'
+        for seat in rb.SEATS:
+            ov = va = None
+            if pab.get('seat') == seat and pab.get('kind') == 'offend':
+                ov = {(pab['board'], pab['phase'], pab['index']): pab['raw']}
+            if pab.get('seat') == seat and pab.get('kind') == 'leave':
+                va = (pab['board'], pab['phase'], pab['index'], 'any')
+            pp = make_player(prelude, seat, prelude['seats'][seat], f'pre:{seat}', overrides=ov,
+                             vanish=va, addr=PRE_ADDR)
+            sim.spawn(pp.run, pp.name, proc=pp.name)
     fam = scn.get('family', 'S1')
     abort = scn.get('abort') or {}
     if fam == 'S2':
